@@ -1225,11 +1225,12 @@ fn check_matching_pattern(
         }
         cx.error_set.report_element_missing_error(*loc, pattern_type.to_description(), index);
         let type_ = Arc::new(Type::Any(Reason::new(*loc, Some(*loc)), false));
-        let (checked, abstract_node) =
-          check_matching_pattern(cx, pattern, wildcard_on_bad_pattern, &type_);
+        // A surplus element has no field to match against. It is still checked (bindings,
+        // diagnostics), but it must not become a column of the abstract pattern: rows of different
+        // arity crash the exhaustiveness analysis.
+        let (checked, _) = check_matching_pattern(cx, pattern, wildcard_on_bad_pattern, &type_);
         checked_destructured_names
           .push(pattern::TuplePatternElement { pattern: Box::new(checked), type_ });
-        abstract_pattern_nodes.push(abstract_node);
       }
       if fields.len() > checked_destructured_names.len() {
         cx.error_set.report_non_exhaustive_tuple_binding_error(
@@ -1406,11 +1407,10 @@ fn check_matching_pattern(
                 index,
               );
               let type_ = Arc::new(Type::Any(Reason::new(*p.loc(), Some(*p.loc())), false));
-              let (checked, abstract_node) =
-                check_matching_pattern(cx, p, wildcard_on_bad_pattern, &type_);
+              // Surplus element: checked, but not a column of the abstract pattern (see above).
+              let (checked, _) = check_matching_pattern(cx, p, wildcard_on_bad_pattern, &type_);
               checked_data_variables
                 .push(pattern::TuplePatternElement { pattern: Box::new(checked), type_ });
-              abstract_pattern_nodes.push(abstract_node);
             }
           }
           (
